@@ -636,12 +636,13 @@ type ceState struct {
 	labels   map[types.Object]slin
 	jumps    map[types.Object][]jumpRec
 	facts    map[string]bool
-	bodyBase *slin // height at which the loop body of this function was translated
-	dead     bool  // the path ends in a compile-time error (Compile rejects the node kind)
+	bodyBase *slin                // height at which the loop body of this function was translated
+	dead     bool                 // the path ends in a compile-time error (Compile rejects the node kind)
+	indexed  map[string][]jumpRec // inside a counting loop over a list of jump positions: L -> what L[i] stands for
 }
 
 func (s *ceState) clone() *ceState {
-	c := &ceState{h: s.h.clone(), env: map[types.Object]string{}, labels: map[types.Object]slin{}, jumps: map[types.Object][]jumpRec{}, facts: map[string]bool{}, bodyBase: s.bodyBase, pending: s.pending, dead: s.dead}
+	c := &ceState{h: s.h.clone(), env: map[types.Object]string{}, labels: map[types.Object]slin{}, jumps: map[types.Object][]jumpRec{}, facts: map[string]bool{}, bodyBase: s.bodyBase, pending: s.pending, dead: s.dead, indexed: s.indexed}
 	for k, v := range s.env {
 		c.env[k] = v
 	}
@@ -1169,6 +1170,22 @@ func (ci *ceInterp) evalCalls(n ast.Node, st *ceState, stmtVars map[types.Object
 }
 
 func (ci *ceInterp) patch(call *ast.CallExpr, st *ceState) {
+	// changeOperand(L[i], target) inside a counting loop over the list L
+	if ix, ok := ast.Unparen(call.Args[0]).(*ast.IndexExpr); ok && st.indexed != nil {
+		if js, ok := st.indexed[types.ExprString(ix.X)]; ok {
+			if lid, ok := ast.Unparen(call.Args[1]).(*ast.Ident); ok {
+				if lh, ok := st.labels[ci.info.ObjectOf(lid)]; ok {
+					for _, j := range js {
+						if !j.h.eq(lh) {
+							ci.fail("jump-height:"+types.ExprString(ix.X)+"→"+lid.Name, call.Pos(), fmt.Sprintf("a jump recorded in %s is taken with stack height %s, but its target %s was emitted at height %s (relative to the statement's base): "+
+								"the code behind the jump runs with a different stack than it was compiled for (a value is leaked or popped twice on that path)", types.ExprString(ix.X), j.h, lid.Name, lh))
+						}
+					}
+					return
+				}
+			}
+		}
+	}
 	pid, ok1 := ast.Unparen(call.Args[0]).(*ast.Ident)
 	lid, ok2 := ast.Unparen(call.Args[1]).(*ast.Ident)
 	if !ok1 || !ok2 {
@@ -1328,6 +1345,31 @@ func (ci *ceInterp) stmt(s ast.Stmt, st *ceState, outs *[]ceOutcome, stmtVars ma
 	case *ast.RangeStmt:
 		return ci.rangeStmt(x, st, outs, stmtVars)
 	case *ast.ForStmt:
+		// for i := 0; i < len(L); i++ { … L[i] … } over a list of recorded jump positions (c.breaks, a local list):
+		// the body is interpreted once with L[i] standing for every position in the list; it must not move the stack
+		if list := countingLoopOver(ci.info, x); list != nil {
+			var js []jumpRec
+			known := false
+			switch l := ast.Unparen(list).(type) {
+			case *ast.SelectorExpr:
+				if l.Sel.Name == "breaks" && st.bodyBase != nil {
+					js, known = []jumpRec{{h: st.bodyBase.clone(), pos: x.Pos()}}, true
+				}
+			case *ast.Ident:
+				js, known = st.jumps[ci.info.ObjectOf(l)]
+			}
+			if known {
+				inner := st.clone()
+				inner.indexed = map[string][]jumpRec{types.ExprString(list): js}
+				res := ci.block(x.Body.List, []*ceState{inner}, outs, stmtVars)
+				for _, r2 := range res {
+					if !r2.h.eq(st.h) {
+						ci.fail("loop-effect", x.Pos(), "a loop over recorded jump positions changes the stack height")
+					}
+				}
+				return []*ceState{st}
+			}
+		}
 		ci.unknown("loop", x.Pos(), "a for loop with a condition in the compiler: its trip count is not a list length")
 		return []*ceState{st}
 	case *ast.AssignStmt:
@@ -1841,3 +1883,30 @@ func isRangeKeyStore(info *types.Info, fd *FuncDecl, ix *ast.IndexExpr) bool {
 }
 
 var _ = constant.MakeBool
+
+// countingLoopOver: `for i := 0; i < len(L); i++` — returns L.
+func countingLoopOver(info *types.Info, f *ast.ForStmt) ast.Expr {
+	as, ok := f.Init.(*ast.AssignStmt)
+	if !ok || len(as.Lhs) != 1 || len(as.Rhs) != 1 {
+		return nil
+	}
+	iv, ok := as.Lhs[0].(*ast.Ident)
+	if z, isZ := constInt(info, as.Rhs[0]); !ok || !isZ || z != 0 {
+		return nil
+	}
+	c, ok := f.Cond.(*ast.BinaryExpr)
+	if !ok || c.Op != token.LSS {
+		return nil
+	}
+	if id, ok := ast.Unparen(c.X).(*ast.Ident); !ok || info.ObjectOf(id) != info.ObjectOf(iv) {
+		return nil
+	}
+	lc, ok := ast.Unparen(c.Y).(*ast.CallExpr)
+	if !ok || !isBuiltinCall(info, lc, "len") || len(lc.Args) != 1 {
+		return nil
+	}
+	if inc, ok := f.Post.(*ast.IncDecStmt); !ok || inc.Tok != token.INC {
+		return nil
+	}
+	return lc.Args[0]
+}
